@@ -47,20 +47,20 @@ Theorem pass_decrypt_cli_no_open_leaves_fs w o j :
   (status (cmd_pass_decrypt P w o) = SPassDecryptAuth \/ exists e, status (cmd_pass_decrypt P w o) = SDecryptFailed e).
 Proof.
   intros Hp Hno. destruct (run_pdec P j) as [res s'] eqn:Er. cbn [snd] in Hno.
-  unfold run_pdec in Er.
+  pose proof Er as Er0. rewrite run_pdec_eq in Er.
   destruct (pass_decrypt_no_open_no_output P HH _ _ _ _ (log s') Er) as (Ho & Hev & Hres);
     [cbn; now rewrite app_nil_r|exact Hno|].
   assert (Ht : sink_touched (snd (run_pdec P j)) = false).
-  { unfold run_pdec. rewrite Er. cbn [snd]. now apply no_out_untouched. }
-  split; [unfold run_pdec in Ht; rewrite Er in Ht; exact Ht|].
+  { rewrite Er0. cbn [snd]. now apply no_out_untouched. }
+  split; [rewrite Er0 in Ht; exact Ht|].
   split; [exact (pass_decrypt_no_write_leaves_fs P w o j Hp Ht)|].
   unfold Cli.cmd_pass_decrypt.
   destruct (stream_plan_run w (po_outfile o) _ (run_pdec P) (fun _ => fin_pdec) j Hp) as (Hst & _ & Hso).
   split.
-  { rewrite Hso. unfold out_stdout, run_pdec. rewrite Er. cbn [snd]. destruct (po_outfile o); [reflexivity|].
+  { rewrite Hso. unfold out_stdout. rewrite Er0. cbn [snd]. destruct (po_outfile o); [reflexivity|].
     rewrite Ho. reflexivity. }
   assert (Hfst : exists e, fst (run_pdec P j) = Err e).
-  { unfold run_pdec. rewrite Er. cbn [fst]. destruct Hres as [-> | [-> | [[e ->] | [-> | ->]]]]; eauto. }
+  { rewrite Er0. cbn [fst]. destruct Hres as [-> | [-> | [[e ->] | [-> | ->]]]]; eauto. }
   destruct Hfst as (e & He).
   destruct (stream_err w (po_outfile o) _ (run_pdec P) (fun _ => fin_pdec) j e Hp He) as [Hc Hs].
   split; [rewrite Hc; apply fin_pdec_err|]. rewrite Hs.
@@ -79,28 +79,28 @@ Theorem decrypt_cli_no_open_leaves_fs w o j :
   (forall e, fst (run_dec P j) = Err e -> exit_code (cmd_decrypt w o) = 1).
 Proof.
   intros Hp Hno. destruct (run_dec P j) as [res s'] eqn:Er. cbn [snd] in Hno.
-  unfold run_dec in Er.
+  pose proof Er as Er0. rewrite run_dec_eq in Er.
   destruct (key_decrypt_no_open_no_output P HH _ _ _ _ _ (log s') Er) as (Ho & Hev & Hres);
     [cbn; now rewrite app_nil_r|exact Hno|].
   assert (Ht : sink_touched (snd (run_dec P j)) = false).
-  { unfold run_dec. rewrite Er. cbn [snd]. now apply no_out_untouched. }
-  split; [unfold run_dec in Ht; rewrite Er in Ht; exact Ht|].
+  { rewrite Er0. cbn [snd]. now apply no_out_untouched. }
+  split; [rewrite Er0 in Ht; exact Ht|].
   split; [exact (decrypt_no_write_leaves_fs P pk_ok sk_ok unlock decode_pk encode_pk utf8_decode w o j Hp Ht)|].
   unfold Cli.cmd_decrypt.
   destruct (stream_plan_run w (do_outfile o) _ (run_dec P) (fun j => fin_dec encode_pk (dj_keys j)) j Hp) as (Hst & _ & Hso).
   split.
-  { rewrite Hso. unfold out_stdout, run_dec. rewrite Er. cbn [snd]. destruct (do_outfile o); [reflexivity|].
+  { rewrite Hso. unfold out_stdout. rewrite Er0. cbn [snd]. destruct (do_outfile o); [reflexivity|].
     rewrite Ho. reflexivity. }
   assert (Hns : is_success (status (stream_cmd w (do_outfile o) (decrypt_plan w o) (run_dec P)
                                       (fun j => fin_dec encode_pk (dj_keys j)))) = false).
-  { rewrite Hst. unfold run_dec. rewrite Er. cbn [fst].
+  { rewrite Hst. rewrite Er0. cbn [fst].
     destruct Hres as [-> | [-> | [[e ->] | [-> | [-> | [[ne ->] | [[t ->] | ->]]]]]]]; reflexivity. }
   split; [exact Hns|]. split.
   - intros Hc. pose proof (stream_wf w (do_outfile o) (decrypt_plan w o) (run_dec P)
                              (fun j => fin_dec encode_pk (dj_keys j))) as Hwf.
     apply (wf_exit_iff _ Hwf) in Hc. rewrite Hc in Hns. discriminate.
   - intros e He.
-    assert (He' : fst (run_dec P j) = Err e) by (unfold run_dec; rewrite Er; exact He).
+    assert (He' : fst (run_dec P j) = Err e) by (rewrite Er0; exact He).
     destruct (stream_err w (do_outfile o) _ (run_dec P) (fun j => fin_dec encode_pk (dj_keys j)) j e Hp He') as [Hc _].
     rewrite Hc. apply fin_dec_err.
 Qed.
@@ -119,8 +119,8 @@ Theorem encrypt_cli_refused_exchange_leaves_fs w o j fresh_pk fresh_e ne :
   status (cmd_encrypt w o fresh_pk fresh_e) = SEncryptFailed EOther.
 Proof.
   intros Hp Hl Hn.
-  assert (Er : run_enc P fresh_pk fresh_e j = (Err EOther, io0 (ej_input j))).
-  { unfold run_enc. apply (key_encrypt_dh_zero P fresh_pk fresh_e _ _ _ None None None _ ne); [exact Hl|exact Hn]. }
+  assert (Er : run_enc P fresh_pk fresh_e j = (Err EOther, job_io (enc_fed P fresh_pk fresh_e j) (ej_dir j) (ej_bad j))).
+  { rewrite run_enc_eq. apply (key_encrypt_dh_zero P fresh_pk fresh_e _ _ _ None None None _ ne); [exact Hl|exact Hn]. }
   assert (Ht : sink_touched (snd (run_enc P fresh_pk fresh_e j)) = false) by (rewrite Er; reflexivity).
   split; [exact (encrypt_no_write_leaves_fs P pk_ok sk_ok unlock decode_pk utf8_decode w o fresh_pk fresh_e j Hp Ht)|].
   unfold Cli.cmd_encrypt.
@@ -143,8 +143,8 @@ Theorem encrypt_cli_dh_zero_leaves_fs w o j fresh_pk fresh_e :
   status (cmd_encrypt w o fresh_pk fresh_e) = SEncryptFailed EOther.
 Proof.
   intros HH Hp Hl He Hs Hr Hz.
-  assert (Er : run_enc P fresh_pk fresh_e j = (Err EOther, io0 (ej_input j))).
-  { unfold run_enc.
+  assert (Er : run_enc P fresh_pk fresh_e j = (Err EOther, job_io (enc_fed P fresh_pk fresh_e j) (ej_dir j) (ej_bad j))).
+  { rewrite run_enc_eq.
     apply (key_encrypt_dh_zero_concrete P fresh_pk fresh_e (ej_s j) (ej_spk j) (ej_r j) None None None _
              fresh_e (dh_pub P fresh_e) HH); try assumption. reflexivity. }
   assert (Ht : sink_touched (snd (run_enc P fresh_pk fresh_e j)) = false) by (rewrite Er; reflexivity).
@@ -171,8 +171,8 @@ Theorem pass_decrypt_cli_authenticated_prefix w o j F :
   pass_decrypt_plan w o = inr j -> po_outfile o = Some F ->
   new_fs (cmd_pass_decrypt P w o) = fs w
   \/
-  (exists salt rest, length salt = 32%nat /\ pj_input j = x_pass_file_magic ++ salt ++ rest /\
-     (forall q, q <> F -> fs_get (new_fs (cmd_pass_decrypt P w o)) q = fs_get (fs w) q) /\
+  (exists salt rest, length salt = 32%nat /\ pdec_fed P j = x_pass_file_magic ++ salt ++ rest /\
+     (forall q, fs_target (fs w) q <> fs_target (fs w) F -> fs_get (new_fs (cmd_pass_decrypt P w o)) q = fs_get (fs w) q) /\
      (forall e, fst (run_pdec P j) = Err e -> exit_code (cmd_pass_decrypt P w o) = 1) /\
      forall chunks,
        ChunksAuth.no_forgery P (kdf P (pj_pw j) salt) x_pass_file_magic chunks (log (snd (run_pdec P j))) ->
@@ -183,9 +183,15 @@ Proof.
   intros Hp Ho.
   destruct (sink_touched (snd (run_pdec P j))) eqn:Ht.
   2:{ left. exact (pass_decrypt_no_write_leaves_fs P w o j Hp Ht). }
+  destruct (pass_decrypt_plan_inv w o j Hp) as (_ & _ & _ & Hends). rewrite Ho in Hends.
+  destruct (pj_bad j) eqn:Hb.
+  { left. destruct (fs_create_target (fs w) F) as [cp|] eqn:Hc.
+    - pose proof (proj2 (job_ends_bad_iff _ _ _ _ _ _ _ Hends) (ex_intro _ cp Hc)) as Hf. discriminate Hf.
+    - unfold Cli.cmd_pass_decrypt. now destruct (stream_bad_sink w (po_outfile o) _ (run_pdec P) (fun _ => fin_pdec) j F Hp Ho Hc). }
+  destruct (proj1 (job_ends_bad_iff _ _ _ _ _ _ _ Hends) eq_refl) as [cp Hc].
   right.
-  destruct (pass_decrypt_late_failure_keeps_prefix P w o j F Hp Ho Ht) as (Hg & Hq & Hex).
-  destruct (run_pdec P j) as [res s'] eqn:Er. unfold run_pdec in Er. cbn [fst snd] in *.
+  destruct (pass_decrypt_late_failure_keeps_prefix P w o j F cp Hp Ho Hc Ht) as (Hg & Hq & _ & Hex).
+  destruct (run_pdec P j) as [res s'] eqn:Er. rewrite run_pdec_eq, Hb in Er. cbn [fst snd] in *.
   destruct (pass_decrypt_decompose P _ _ _ _ Er) as [(_ & _ & d & Hd & Hev)|(salt & s1 & d & Hls & Hw & _ & _ & Hdata & E3)].
   { exfalso. cbn in Hd. rewrite app_nil_r in Hd. rewrite <- Hd in Hev. rewrite (read_evs_untouched _ Hev) in Ht. discriminate. }
   exists salt, (r_data (rdr s1)). split; [exact Hls|]. split; [exact Hdata|]. split; [exact Hq|].
@@ -197,7 +203,7 @@ Proof.
   exists wr, tl. split; [rewrite Hg, H1; reflexivity|]. split; [exact H2|].
   intros Hs. unfold Cli.cmd_pass_decrypt in Hs.
   destruct (stream_plan_run w (po_outfile o) _ (run_pdec P) (fun _ => fin_pdec) j Hp) as (Hst & _).
-  rewrite Hst in Hs. unfold run_pdec in Hs. rewrite Er in Hs. cbn [fst] in Hs.
+  rewrite Hst in Hs. rewrite run_pdec_eq, Hb in Hs. rewrite Er in Hs. cbn [fst] in Hs.
   apply fin_pdec_success in Hs. destruct Hs as ([] & ->). specialize (H3 eq_refl). rewrite H1 in H3. exact H3.
 Qed.
 
@@ -205,9 +211,9 @@ Theorem decrypt_cli_authenticated_prefix w o j F :
   decrypt_plan w o = inr j -> do_outfile o = Some F ->
   new_fs (cmd_decrypt w o) = fs w
   \/
-  (exists msg rest payload spk hh, length msg = 128%nat /\ dj_input j = x_prologue ++ msg ++ rest /\
+  (exists msg rest payload spk hh, length msg = 128%nat /\ dec_fed P j = x_prologue ++ msg ++ rest /\
      noise_decrypt P (dj_r j) (dj_rpk j) x_prologue msg = Ok (payload, spk, hh) /\
-     (forall q, q <> F -> fs_get (new_fs (cmd_decrypt w o)) q = fs_get (fs w) q) /\
+     (forall q, fs_target (fs w) q <> fs_target (fs w) F -> fs_get (new_fs (cmd_decrypt w o)) q = fs_get (fs w) q) /\
      (forall e, fst (run_dec P j) = Err e -> exit_code (cmd_decrypt w o) = 1) /\
      forall chunks,
        ChunksAuth.no_forgery P (file_key P payload hh) [] chunks (log (snd (run_dec P j))) ->
@@ -219,10 +225,18 @@ Proof.
   intros Hp Ho.
   destruct (sink_touched (snd (run_dec P j))) eqn:Ht.
   2:{ left. exact (decrypt_no_write_leaves_fs P pk_ok sk_ok unlock decode_pk encode_pk utf8_decode w o j Hp Ht). }
+  destruct (decrypt_plan_inv pk_ok sk_ok unlock decode_pk utf8_decode w o j Hp)
+    as (rk0 & locked0 & pw0 & _ & _ & _ & _ & _ & _ & _ & _ & Hends). rewrite Ho in Hends.
+  destruct (dj_bad j) eqn:Hb.
+  { left. destruct (fs_create_target (fs w) F) as [cp|] eqn:Hc.
+    - pose proof (proj2 (job_ends_bad_iff _ _ _ _ _ _ _ Hends) (ex_intro _ cp Hc)) as Hf. discriminate Hf.
+    - unfold Cli.cmd_decrypt.
+      now destruct (stream_bad_sink w (do_outfile o) _ (run_dec P) (fun j => fin_dec encode_pk (dj_keys j)) j F Hp Ho Hc). }
+  destruct (proj1 (job_ends_bad_iff _ _ _ _ _ _ _ Hends) eq_refl) as [cp Hc].
   right.
-  destruct (decrypt_late_failure_keeps_prefix P pk_ok sk_ok unlock decode_pk encode_pk utf8_decode w o j F Hp Ho Ht)
-    as (Hg & Hq & Hex).
-  destruct (run_dec P j) as [res s'] eqn:Er. unfold run_dec in Er. cbn [fst snd] in *.
+  destruct (decrypt_late_failure_keeps_prefix P pk_ok sk_ok unlock decode_pk encode_pk utf8_decode w o j F cp Hp Ho Hc Ht)
+    as (Hg & Hq & _ & Hex).
+  destruct (run_dec P j) as [res s'] eqn:Er. rewrite run_dec_eq, Hb in Er. cbn [fst snd] in *.
   destruct (key_decrypt_decompose P _ _ _ _ _ Er)
     as [(_ & _ & d & Hd & Hev)|(msg & payload & spk & hh & s1 & d & r3 & Hlm & En & Hw & _ & _ & Hdata & E3 & Hres)].
   { exfalso. cbn in Hd. rewrite app_nil_r in Hd. rewrite <- Hd in Hev. rewrite (read_evs_untouched _ Hev) in Ht. discriminate. }
@@ -236,7 +250,7 @@ Proof.
   exists wr, tl. split; [rewrite Hg, H1; reflexivity|]. split; [exact H2|].
   intros Hs. unfold Cli.cmd_decrypt in Hs |- *.
   destruct (stream_plan_run w (do_outfile o) _ (run_dec P) (fun j => fin_dec encode_pk (dj_keys j)) j Hp) as (Hst & _).
-  rewrite Hst in Hs |- *. unfold run_dec in Hs |- *. rewrite Er in Hs |- *. cbn [fst] in Hs |- *.
+  rewrite Hst in Hs |- *. rewrite run_dec_eq, Hb in Hs |- *. rewrite Er in Hs |- *. cbn [fst] in Hs |- *.
   apply fin_dec_success in Hs. destruct Hs as (a & Ha). rewrite Ha in Hres.
   destruct r3 as [[]|e|t|]; cbn [obind] in Hres; try discriminate. injection Hres as ->.
   specialize (H3 eq_refl). rewrite H1 in H3. split; [exact H3|]. rewrite Ha. reflexivity.
@@ -246,22 +260,24 @@ Qed.
 (* delivered (Model/Combine2Defs.v): where the bytes go: the file named by -o, or stdout *)
 Theorem cli_pass_decrypt_ok_is_complete_plaintext w o :
   is_success (status (cmd_pass_decrypt P w o)) = true ->
-  exists input pw salt rest s',
+  exists input fed pw salt rest s',
     resolve_input w (po_infile o) = inr input /\ ask_pass w (po_env_pass o) = inr pw /\
-    input = x_pass_file_magic ++ salt ++ rest /\ length salt = 32%nat /\
-    pass_decrypt P pw (io0 input) = (Ok tt, s') /\
+    fed = x_pass_file_magic ++ salt ++ rest /\ length salt = 32%nat /\
+    pass_decrypt P pw (io0 fed) = (Ok tt, s') /\
     delivered (po_outfile o) (cmd_pass_decrypt P w o) = Some (w_out (wtr s')) /\
-    forall chunks, ChunksAuth.no_forgery P (kdf P pw salt) x_pass_file_magic chunks (log s') ->
-      delivered (po_outfile o) (cmd_pass_decrypt P w o) = Some (concat chunks).
+    (forall chunks, ChunksAuth.no_forgery P (kdf P pw salt) x_pass_file_magic chunks (log s') ->
+      delivered (po_outfile o) (cmd_pass_decrypt P w o) = Some (concat chunks)) /\
+    (* the bytes fed to the library are the input's bytes, unless input and output are one file *)
+    exists j, pass_decrypt_plan w o = inr j /\ fed = pdec_fed P j /\ (pj_alias j = false -> fed = input).
 Proof.
-  intros Hs. destruct (pass_decrypt_success_delivers P w o Hs) as (j & s' & Hp & Er & Hi & Hpw & _ & Hdel).
+  intros Hs. destruct (pass_decrypt_success_delivers P w o Hs) as (j & s' & Hp & Er & Hi & Hpw & _ & Hdel & Hal).
   destruct (pass_decrypt_decompose P _ _ _ _ Er) as [(Hn & _)|(salt & s1 & d & Hls & Hw & _ & _ & Hdata & E3)].
   { exfalso. exact (Hn tt eq_refl). }
-  exists (pj_input j), (pj_pw j), salt, (r_data (rdr s1)), s'.
+  exists (pj_input j), (pdec_fed P j), (pj_pw j), salt, (r_data (rdr s1)), s'.
   split; [exact Hi|]. split; [exact Hpw|]. split; [exact Hdata|]. split; [exact Hls|]. split; [exact Er|].
   assert (Hd : delivered (po_outfile o) (cmd_pass_decrypt P w o) = Some (w_out (wtr s'))).
   { unfold delivered. destruct (po_outfile o) as [F|]; [now destruct Hdel|]. destruct Hdel as [-> _]. reflexivity. }
-  split; [exact Hd|]. intros chunks NF. rewrite Hd. f_equal.
+  split; [exact Hd|]. split; [|exists j; auto]. intros chunks NF. rewrite Hd. f_equal.
   assert (Hkey : length (kdf P (pj_pw j) salt) = 32%nat) by (unfold kdf; rewrite (scrypt_len P HH); reflexivity).
   destruct (dec_auth_file P _ x_pass_file_magic cs_const Hkey HA chunks _ _ _ _ E3 NF) as [_ H3].
   specialize (H3 eq_refl). cbn [wtr with_log] in H3. rewrite Hw in H3. exact H3.
@@ -271,17 +287,19 @@ Theorem cli_decrypt_ok_is_complete_plaintext w o :
   is_success (status (cmd_decrypt w o)) = true ->
   exists j msg rest payload spk hh s',
     decrypt_plan w o = inr j /\ resolve_input w (do_infile o) = inr (dj_input j) /\
-    dj_input j = x_prologue ++ msg ++ rest /\ length msg = 128%nat /\
+    dec_fed P j = x_prologue ++ msg ++ rest /\ length msg = 128%nat /\
     noise_decrypt P (dj_r j) (dj_rpk j) x_prologue msg = Ok (payload, spk, hh) /\
-    key_decrypt P (dj_r j) (dj_rpk j) (io0 (dj_input j)) = (Ok spk, s') /\
+    key_decrypt P (dj_r j) (dj_rpk j) (io0 (dec_fed P j)) = (Ok spk, s') /\
     status (cmd_decrypt w o) = sender_status encode_pk (dj_keys j) spk /\
     delivered (do_outfile o) (cmd_decrypt w o) = Some (w_out (wtr s')) /\
-    forall chunks, ChunksAuth.no_forgery P (file_key P payload hh) [] chunks (log s') ->
-      delivered (do_outfile o) (cmd_decrypt w o) = Some (concat chunks).
+    (forall chunks, ChunksAuth.no_forgery P (file_key P payload hh) [] chunks (log s') ->
+      delivered (do_outfile o) (cmd_decrypt w o) = Some (concat chunks)) /\
+    (* the bytes fed to the library are the input's bytes, unless input and output are one file *)
+    (dj_alias j = false -> dec_fed P j = dj_input j).
 Proof.
   intros Hs.
   destruct (decrypt_success_delivers P pk_ok sk_ok unlock decode_pk encode_pk utf8_decode w o Hs)
-    as (j & sender & s' & Hp & Er & Hi & Hst & Hdel).
+    as (j & sender & s' & Hp & Er & Hi & Hst & Hdel & Hal).
   destruct (key_decrypt_decompose P _ _ _ _ _ Er)
     as [(Hn & _)|(msg & payload & spk & hh & s1 & d & r3 & Hlm & En & Hw & _ & _ & Hdata & E3 & Hres)].
   { exfalso. exact (Hn sender eq_refl). }
@@ -291,7 +309,7 @@ Proof.
   split; [exact Er|]. split; [exact Hst|].
   assert (Hd : delivered (do_outfile o) (cmd_decrypt w o) = Some (w_out (wtr s'))).
   { unfold delivered. destruct (do_outfile o) as [F|]; [now destruct Hdel|]. destruct Hdel as [-> _]. reflexivity. }
-  split; [exact Hd|]. intros chunks NF. rewrite Hd. f_equal.
+  split; [exact Hd|]. split; [|exact Hal]. intros chunks NF. rewrite Hd. f_equal.
   assert (Hkey : length (file_key P payload hh) = 32%nat).
   { unfold file_key. rewrite (hkdf_len P HH); [reflexivity|cbn; lia]. }
   destruct (dec_auth_file P _ [] cs_const Hkey HA chunks _ _ _ _ E3 NF) as [_ H3].
